@@ -836,6 +836,7 @@ package rosmar
 //@   modular
 //@   requires subdoc != nil
 //@   loop 1 invariant [C18:evalSubdocPath.walk] subdoc != nil
+//@   loop 1 body [C18:evalSubdocPath.step-reads-the-next-component] iter("mapread") == 1 && mapwasread(mapid(athead(subdoc)), path[athead(rangeindex) + 1])
 //@   ensures [C18:evalSubdocPath.nil-means-error] isnull(result0) ==> result1 != nil
 //@   ensures [C18:evalSubdocPath.error-means-nil] result1 != nil ==> isnull(result0)
 //@ fn upsertSubdocValue
